@@ -80,6 +80,9 @@ static Outcome runCase(const KV& c)
     o.cls(cfg.dirbc ? "dirbc" : "across_origin");
     o.cls(cfg.aniso ? "anisotropic_base_grid" : "uniform_base_grid");
     const std::string an = cfg.aniso ? "aniso_" : "";
+    const bool twoLevelSmall = cfg.max_levels == 2;
+    if (twoLevelSmall)
+        o.cls("two_levels_small_grids");
     Err e[2][2];
     for (int ex = 0; ex < 2; ex++)
         for (int d = 0; d < 2; d++) {
@@ -92,7 +95,7 @@ static Outcome runCase(const KV& c)
             }
         }
     const Err& fin = e[0][1];
-    o.nontrivial   = fin.nr >= 65 && fin.nt >= 128;
+    o.nontrivial   = (fin.nr >= 65 && fin.nt >= 128) || twoLevelSmall;
     o.cls("finest_" + std::to_string(fin.nr) + "x" + std::to_string(fin.nt));
     // floor guard: rounding floor of the discrete solve ~ eps * kappa; across-origin rows scale like 1/R0
     // (errors of the sizes met here, >= 1e-8, are far above the rounding level of the solves; see DESIGN.md C02)
@@ -112,6 +115,13 @@ static Outcome runCase(const KV& c)
                 continue;
             }
             const double p = std::log2(ec / ef);
+            if (twoLevelSmall) {
+                // pre-asymptotic pair (33 -> 65 radial nodes, exactly two levels): judged in the weighted l2 norm and by "the
+                // extrapolated solution is the more accurate one" below; the max-norm orders are recorded only
+                o.mx(std::string(ex ? "twolevel_neg_order_extrapolated_" : "twolevel_neg_order_plain_") + (norm ? "max" : "l2"), -p);
+                if (norm == 1)
+                    continue; // the max norm is pre-asymptotic on this pair (2.8-2.9 observed); the l2 order is judged
+            }
             o.mx(an + std::string(ex ? "neg_order_extrapolated_" : "neg_order_plain_") + (norm ? "max" : "l2"), -p);
             char buf[300];
             snprintf(buf, sizeof buf, "%s, %s norm: errors %.4e (%dx%d) -> %.4e (%dx%d), observed order %.3f", ex ? "implicit extrapolation" : "no extrapolation",
@@ -202,6 +212,13 @@ static KV genCase()
     // refinement pair k -> k+1; finest 129x256 (quick) or 257x512 (thorough; across-origin with tiny R0 stays at 129)
     s.div = thorough ? (!s.dirbc ? 2 : rint(2, 3)) : 2;
     s.threads = 2;
+    if (rint(0, 5) == 0) {
+        // exactly two levels (the direct solver is the coarse level of the extrapolated cycle): affordable only on small
+        // grids, 33x64 -> 65x128 with the coarse solve on 17x32 / 33x64
+        s.max_levels = 2;
+        s.aniso      = 0;
+        s.div        = 1;
+    }
     s.via_cli = rint(0, 1);
     s.put(c);
     return c;
